@@ -5,6 +5,11 @@ HERE = os.path.dirname(os.path.abspath(__file__))
 PY = '/venv/bin/python -B /verif/check.py'
 
 CLAIMED = {
+ 'C06': dict(
+    technique='deterministic simulation: seeded hook-registration histories with conflict / body-raise / invalid-name faults against a declarative reference model in lock-step',
+    text='Seeded search over histories of beartype_all/_package(s)/_this_package calls and (nested, raising) beartyping() blocks; after every operation the real registry is queried for ~40 module names and compared with a three-value reference model (nearest registered ancestor, skip/exclusion, restore-on-exit, failed call changes nothing, path hook present iff registry non-empty). Evidence, not proof.',
+    note='Trusted: the reference model (the property\'s sentences; reading of "restores exactly" stated in the evidence assumptions), in-place state restore between runs (violations re-confirmed in a pristine fork).',
+    design='5/C06'),
  'C17': dict(
     technique='deterministic simulation: seeded construction histories with look-alike/invalid/unhashable value and environment faults against a reference memo-table model; threaded fraction under the baton scheduler',
     text='Seeded search over histories of BeartypeConf constructions (valid, invalid, equal-but-differently-typed, unhashable values; BEARTYPE_IS_COLOR faults; two threads under the scheduler in 20% of runs) checked step by step against a small executable reference model of validation and memoisation. Evidence, not proof.',
@@ -27,7 +32,7 @@ NOT_APPLICABLE = {
 }
 
 PENDING = {k: 'not claimed yet: the simulation engine for this property (DESIGN.md section 5) is not built at this commit' for k in
-           ['C01','C02','C03','C06','C07','C08','C09','C10','C11','C14','C16','C18']}
+           ['C01','C02','C03','C07','C08','C09','C10','C11','C14','C16','C18']}
 
 def main():
     checks = []
